@@ -4,6 +4,10 @@ NOTES = ("Technique family: runtime monitoring and sanitizers. Every verdict is 
          "evidence files report what the monitors saw. See DESIGN.md.")
 
 ENGINES = [
+    {"name": "fault", "path": "harness/src/engines/fault.rs", "serves_properties": ["C09"],
+     "kind_free_text": "fault-injection monitor: numbered I/O calls (H1 decision hook) failed before/after per plan, one child process per plan; online read/flush oracle + recovery of durable-prefix and as-is images in fresh processes"},
+    {"name": "live", "path": "harness/src/engines/live.rs", "serves_properties": ["C18", "C19"],
+     "kind_free_text": "bounded-progress monitors: wb = write-behind drain without flush (pending-work accessor + device trace + recovery of the durable prefix); live = contention scenarios in child processes under a stall-signature watchdog"},
     {"name": "conc", "path": "harness/src/engines/conc.rs + conc2.rs + harness/src/lin.rs", "serves_properties": ["C07", "C08", "C13", "C14", "C16"],
      "kind_free_text": "concurrent runtime monitors: lin = recorded histories + per-key WGL linearizability checker; reuse = genuineness/recency oracle over self-describing values + pinned-extent monitor; memlimit = instantaneous usage bound + quiescent exact accounting; scan = range-result shape/completeness oracle; all with perturbed scheduling points"},
     {"name": "crash", "path": "harness/src/engines/crash.rs", "serves_properties": ["C02", "C03", "C04"],
@@ -28,6 +32,24 @@ _CONC_NOTE = ("Trusted: client-boundary history recording with one global logica
               "Probabilistic reach into each window, compensated by targeted delays; evidence counts, per scheduling point, arrivals / perturbed / windows in which another operation completed.")
 
 TEXT = {
+    "C09": {
+        "engine": "fault",
+        "technique": "runtime fault injection at every numbered write/fsync call (before / after the device effect) with online oracles and recovery of the resulting device images in fresh processes",
+        "level_text": "Five deterministic workloads; for each, every single I/O call of the faulted phase fails once before and once after taking effect (exhaustive singles), plus persistent failure from every (third, in quick) call on, seeded pairs, and per-class bursts of 1-3 failures (journal/data/marker/metadata writes, fsync). Per plan: writes are never refused, every get equals the model, flush()==Ok implies the durable prefix recovers to exactly the model, after every flush attempt both the durable prefix and the file as it stands recover (fresh process) to per-key states within [last acknowledged, latest], after faults stop flush succeeds (after an indeterminate failure: after reopening in a new process) and the space partition is intact.",
+        "level_note": "Trusted: H1 decision hook and trace, the crash model for the durable prefix, single-writer model of the workload. Faults on the synchronous path only; the io_uring error branch is not injected here.",
+    },
+    "C18": {
+        "engine": "live",
+        "technique": "runtime stress under a watchdog with a stall signature (per-thread CPU sampling + backtrace) as the deadlock / lost-wake-up detector",
+        "level_text": "Contention scenarios, each in its own process: concurrent flush() callers with writers/readers/scanners on hot keys and delays injected at one flusher phase per run (while it holds the device guard / retirement mutex); flush racing drop with the TTL sweeper at 1 ms holding references; device filled beyond capacity, then emptied; persistent I/O failure followed by drop (final-flush retry limit). Every call, flush and drop must return; pending work must be zero after a quiescent successful flush. A run that exceeds 90 s is a violation only with the stall signature. This detects deadlocks and lost wake-ups in the schedules produced; it cannot prove termination.",
+        "level_note": "Trusted: the stall signature (no thread of the child consumed CPU during 2 s and none runnable). Slow-but-progressing runs are reported inconclusive.",
+    },
+    "C19": {
+        "engine": "live(wb)",
+        "technique": "runtime monitoring of pending-work counters and the device trace after the last call, no explicit flush; recovery of the durable prefix; independent decode",
+        "level_text": "Stores built with 1..8 shards/workers; bursts that touch every shard (occupancy read back and reported), buffer-filling bursts (>=1024 entries per shard), overwrites/deletes of durable keys (retirement half), busy neighbours. Without any flush the pending counters must reach zero, every accepted write must own an extent, the durable prefix must recover to exactly the accepted state, superseded generations must be retired, the journal clear and the data area exactly partitioned; time-to-durable is reported (observed: ~0.1-0.2 s).",
+        "level_note": "Trusted: H4 pending-work accessor, H1 trace. A real-time bound cannot be a hard verdict on a shared machine: the failing condition is 10 s without drain plus 5 s of device inactivity.",
+    },
     "C07": {
         "engine": "conc(lin)",
         "technique": "runtime history recording + offline per-key linearizability checking (WGL search with memoisation) against a last-writer-wins register spec with the two permitted conservative refusals",
